@@ -200,19 +200,22 @@ class WindowMixin:
         if reg is None:
             reg = self._win_registry = {}
         fam = reg.setdefault((tag, nb, nextra, arr0.dt), [])
-        if kind is not None and nextra == 0:
+        if (kind is not None and nextra == 0) or (kind is None and tag.startswith("wf_")):
+            # (a user-declared window functional is, by its declaration, a function of the window contents and of its scalar
+            # arguments only: the same congruence, the scalars universally quantified)
             frozen_arr = SArr(arr0.cell, arr0.dt, arr0.shape, (), arr0.name, snap=h_)
             for (other, Ok, Ov) in fam:
                 o = [z3.Int(fresh_name("co%d" % k)) for k in range(nb)]
                 e = [z3.Int(fresh_name("ce%d" % k)) for k in range(nb)]
                 p = [z3.Int(fresh_name("cp%d" % k)) for k in range(nb)]
+                xs = [z3.Real(fresh_name("cx%d" % k)) for k in range(nextra)]
                 inw = z3.And(*[z3.And(p[k] >= o[k], p[k] < o[k] + e[k]) for k in range(nb)])
                 ea, eb = array_read(st, frozen_arr, p), array_read(st, other, p)
                 same = fl.same(fl.F(ea), fl.F(eb)) if arr0.dt == "f" else (ea == eb)
                 agree = z3.ForAll(p, z3.Implies(inw, same))
-                concl = z3.And(UFk(*(o + e)) == Ok(*(o + e)), UFv(*(o + e)) == Ov(*(o + e)))
-                self.axioms.append(z3.ForAll(o + e, z3.Implies(agree, concl), patterns=[UFk(*(o + e))]))
-                self.axioms.append(z3.ForAll(o + e, z3.Implies(agree, concl), patterns=[Ok(*(o + e))]))
+                concl = z3.And(UFk(*(o + e + xs)) == Ok(*(o + e + xs)), UFv(*(o + e + xs)) == Ov(*(o + e + xs)))
+                self.axioms.append(z3.ForAll(o + e + xs, z3.Implies(agree, concl), patterns=[UFk(*(o + e + xs))]))
+                self.axioms.append(z3.ForAll(o + e + xs, z3.Implies(agree, concl), patterns=[Ok(*(o + e + xs))]))
             fam.append((frozen_arr, UFk, UFv))
         self._uf_cache[key] = (UFk, UFv)
         return UFk, UFv
